@@ -194,6 +194,8 @@ def _atom_range(cx, at):
     if k == "OR":
         a, b = prange(cx, d["a"]), prange(cx, d["b"])
         return (max(a[0], b[0]), a[1] + b[1])
+    if k == "XOR":
+        return (0, (1 << d["w"]) - 1)
     raise Undecided("atom kind " + k)
 
 
@@ -228,6 +230,29 @@ def prange(cx, a, structural=False):
                 g = _imul((c, c), (0, (1 << k) - 1))
                 lo, hi = lo + g[0], hi + g[1]
                 break
+    # constrained sub-sums: c * Q for a small polynomial Q whose range is recorded on this path (a limb difference known
+    # to be negative, two limbs known to be equal, ...)
+    if len(rest) > 1 and cx.pcons:
+        for qk, (qlo, qhi) in cx.pcons.items():
+            if not (1 < len(qk) <= 4) or len(qk) >= len(rest) + 1:
+                continue
+            (m0, c0) = qk[0]
+            if m0 not in rest or rest[m0] % c0:
+                continue
+            c = rest[m0] // c0
+            if c and all(rest.get(m2) == c * c2 for m2, c2 in qk):
+                rest = padd(rest, pscale(dict(qk), c), -1)
+                g = _imul((c, c), (qlo, qhi))
+                slo = shi = 0
+                for m2, c2 in qk:               # what the atoms' own ranges give for the same sub-sum (may be tighter by now)
+                    r2 = (1, 1)
+                    for at, e in m2:
+                        r2 = _imul(r2, _ipow(atom_range(cx, at), e))
+                    r2 = _imul(r2, (c * c2, c * c2))
+                    slo, shi = slo + r2[0], shi + r2[1]
+                lo, hi = lo + max(g[0], slo), hi + min(g[1], shi)
+                if len(rest) <= 1:
+                    break
     for m, c in rest.items():
         r = (1, 1)
         for at, e in m:
@@ -254,7 +279,14 @@ def _with_atom(cx, at, v):
     d = cx.atoms[at]
     if d["kind"] == "S":
         lo, hi = prange(cx, d["arg"])
-        c2.pcons[pkey(d["arg"])] = (lo, min(hi, -1)) if v == -1 else (max(lo, 0), hi)
+        nz = False
+        if v == 0:
+            # P >= 0 and P known non-zero on this path (its Z atom is 1): P >= 1
+            neg = pscale(d["arg"], -1)
+            canon = d["arg"] if pkey(d["arg"]) <= pkey(neg) else neg
+            zid = cx.index.get(("Z", pkey(canon)))
+            nz = zid is not None and atom_range(cx, zid) == (1, 1)
+        c2.pcons[pkey(d["arg"])] = (lo, min(hi, -1)) if v == -1 else (max(lo, 1 if nz else 0), hi)
         _affine(c2, d["arg"], *c2.pcons[pkey(d["arg"])])
     elif d["kind"] == "Z":
         lo, hi = prange(cx, d["arg"])
@@ -381,6 +413,12 @@ def F(cx, a, k, hint=None):
     normalised polynomial shows after cancellations"""
     if k == 0:
         return dict(a)
+    if len(a) == 1:
+        (m_, c_), = a.items()
+        if c_ == 1 and len(m_) == 1 and m_[0][1] == 1 and cx.atoms[m_[0][0]]["kind"] == "XOR" and cx.atoms[m_[0][0]]["w"] == k + 1:
+            d_ = cx.atoms[m_[0][0]]           # the top bit of x ^ y is the exclusive or of the top bits
+            sa, sb = F(cx, d_["a"], k), F(cx, d_["b"], k)
+            return padd(padd(sa, sb), pscale(pmul(sa, sb), 2), -1)
     if a and not is_const(a):
         lo, hi = prange(cx, a)
         if hint is not None:
@@ -496,12 +534,31 @@ def M(cx, a, k, hint=None):
 
 def Z(cx, a):
     """[a != 0]"""
+    if len(a) == 1:
+        (m_, c_), = a.items()
+        if len(m_) == 1 and m_[0][1] == 1 and cx.atoms[m_[0][0]]["kind"] == "XOR":
+            d_ = cx.atoms[m_[0][0]]           # x ^ y != 0 iff x != y
+            return Z(cx, padd(d_["a"], d_["b"], -1))
+
     def direct(c2, p):
         lo, hi = prange(c2, p)
         if lo == hi == 0:
             return {}
         if lo > 0 or hi < 0:
             return const(1)
+        # p == c * Q + R with Q an integer known to be non-zero on this path and |R| < |c|: p != 0
+        for at, (olo, ohi) in c2.override.items():
+            if (olo, ohi) != (1, 1) or c2.atoms[at]["kind"] != "Z":
+                continue
+            Q = c2.atoms[at]["arg"]
+            (m0, c0) = sorted(Q.items())[0]
+            if m0 not in p or p[m0] % c0:
+                continue
+            c = p[m0] // c0
+            if c and all(p.get(m2) == c * c2_ for m2, c2_ in Q.items()):
+                rlo, rhi = prange(c2, padd(p, pscale(Q, c), -1))
+                if -abs(c) < rlo and rhi < abs(c):
+                    return const(1)
         return None
     r = _lift(cx, a, direct)
     if r is not None:
@@ -1038,7 +1095,8 @@ def run_function(mod_text, fn, cx, params, layout, max_paths=64, max_steps=40000
                     return a
             if w == 1:
                 return padd(padd(x, y), pscale(pmul(x, y), 2), -1)
-            raise Undecided("xor of two symbolic values")
+            kx, ky = pkey(x), pkey(y)
+            return cx.atom("XOR", (kx, ky) if kx <= ky else (ky, kx), {"a": x, "b": y, "w": w})
         raise Undecided("operator " + op)
 
     def icmp(cx, pred, w, x, y):
@@ -1132,6 +1190,8 @@ def evaluate(cx, a, asg, memo=None):
             v = 1 if evaluate(cx, d["arg"], asg, memo) != 0 else 0
         elif k == "OR":
             v = evaluate(cx, d["a"], asg, memo) | evaluate(cx, d["b"], asg, memo)
+        elif k == "XOR":
+            v = (evaluate(cx, d["a"], asg, memo) ^ evaluate(cx, d["b"], asg, memo)) % (1 << d["w"])
         else:
             raise Undecided("unassigned limb atom")
         memo[at] = v
@@ -1199,14 +1259,8 @@ def deep_resolve(cx, a, memo=None, depth=0):
             continue
         if at not in memo:
             arg2 = deep_resolve(cx, d["arg"], memo, depth + 1)
-            if pkey(arg2) == pkey(d["arg"]):
-                memo[at] = None
-            elif d["kind"] == "F":
-                memo[at] = F(cx, arg2, d["sh"])
-            elif d["kind"] == "Z":
-                memo[at] = Z(cx, arg2)
-            else:
-                memo[at] = F(cx, arg2, d["sh"])
+            new = Z(cx, arg2) if d["kind"] == "Z" else F(cx, arg2, d["sh"])      # re-derived in the path's context
+            memo[at] = None if pkey(new) == pkey({((at, 1),): 1}) else new
         if memo[at] is not None:
             a = subst_poly(a, at, memo[at])
     return znorm(cx, resolve(cx, a))
@@ -1235,6 +1289,18 @@ def vanishes(cx, a, W, depth=0):
     if depth >= 8:
         return False
     tv = two_valued(cx, a)
+    if not tv or all(cx.atoms[t[0]]["kind"] == "Z" for t in tv):
+        # also the undecided two-valued atoms of the path's own conditions (e.g. the sign bits a branch compared)
+        extra = []
+        for key, (plo, phi) in cx.pcons.items():
+            if plo == phi and len(key) <= 6:
+                for m, _ in key:
+                    for at_, _e in m:
+                        if cx.atoms[at_]["kind"] in ("F", "S") and at_ not in cx.override:
+                            r_ = atom_range(cx, at_)
+                            if r_[1] - r_[0] == 1 and (at_, r_[0], r_[1]) not in extra:
+                                extra.append((at_, r_[0], r_[1]))
+        tv = extra[:1] + tv if extra else tv
     if not tv:
         return False
     at, lo, hi = tv[0]
